@@ -2847,6 +2847,61 @@ theorem applyWrites_noop (ws : List (Nat × Nat × IAttr)) (a : IAttr) (h : ∀ 
     rw [setSlot_noop w.1 w.2.1 w.2.2 a (h w (by simp))]
     exact ih (fun w' hw' => h w' (by simp [hw']))
 
+/-! ## node DSNs survive `full_joined` / `parsed` -/
+
+theorem splitOn_none (d : Char) (s : Str) (h : ∀ c ∈ s, c ≠ d) : Str.splitOn d s = [s] := by
+  induction s with
+  | nil => rfl
+  | cons c cs ih =>
+    have hc : c ≠ d := h c (by simp)
+    simp [Str.splitOn, hc, ih (fun x hx => h x (by simp [hx]))]
+
+theorem splitOn_append (d : Char) (s t : Str) (h : ∀ c ∈ s, c ≠ d) :
+    Str.splitOn d (s ++ d :: t) = s :: Str.splitOn d t := by
+  induction s with
+  | nil => simp [Str.splitOn]
+  | cons c cs ih =>
+    have hc : c ≠ d := h c (by simp)
+    simp [Str.splitOn, hc, ih (fun x hx => h x (by simp [hx]))]
+
+theorem contains_false_of (s : Str) (d : Char) (h : ∀ c ∈ s, c ≠ d) : s.contains d = false := by
+  induction s with
+  | nil => rfl
+  | cons c cs ih =>
+    have hc : c ≠ d := h c (by simp)
+    simp only [List.contains_cons, ih (fun x hx => h x (by simp [hx])), Bool.or_false]
+    simp [Ne.symm hc]
+
+/-- `parsed(full_joined(module, path)) = (module, path)` for a non-empty module path, when neither part contains `#` -/
+theorem dsnParsed_fullJoined (m p : Str) (hm : m ≠ []) (hm' : ∀ c ∈ m, c ≠ '#') (hp' : ∀ c ∈ p, c ≠ '#') :
+    dsnParsed (fullJoined m [p]) = (m, p) := by
+  have hme : m.isEmpty = false := by cases m with | nil => exact absurd rfl hm | cons _ _ => rfl
+  simp only [fullJoined, contains_false_of m '#' hm', Bool.false_eq_true, if_false, localJoined]
+  cases p with
+  | nil =>
+    simp [dsnJoin, hme, Str.join, dsnParsed, splitOn_none '#' m hm']
+  | cons c cs =>
+    simp only [dsnJoin, List.filter_cons, List.isEmpty_cons, Bool.not_false, if_true, List.filter_nil, Str.join, hme]
+    simp only [dsnParsed, List.append_assoc, List.singleton_append]
+    rw [splitOn_append '#' m _ hm', splitOn_none '#' _ hp']
+
+/-- the module part of a key (`modOf`) is `parsed(key)[0]` -/
+theorem modOf_eq_parsed (k : Str) : modOf k = (dsnParsed k).1 := by
+  have : ∀ k : Str, ∃ rest, Str.splitOn '#' k = k.takeWhile (fun c => c != '#') :: rest := by
+    intro k
+    induction k with
+    | nil => exact ⟨[], rfl⟩
+    | cons c cs ih =>
+      obtain ⟨rest, hr⟩ := ih
+      by_cases hc : c = '#'
+      · subst hc; exact ⟨Str.splitOn '#' cs, by simp [Str.splitOn]⟩
+      · refine ⟨rest, ?_⟩
+        simp [Str.splitOn, hc, hr]
+  obtain ⟨rest, hr⟩ := this k
+  unfold dsnParsed modOf
+  rw [hr]
+  cases rest <;> rfl
+
 /-! ## decision procedures for the recursive invariants (used by the concrete examples) -/
 
 def decRefsAvail : (d : List (Str × Row)) → (avail : List Str) → Decidable (RefsAvail avail d)
@@ -2856,5 +2911,130 @@ def decRefsAvail : (d : List (Str × Row)) → (avail : List Str) → Decidable 
     inferInstanceAs (Decidable ((∀ r ∈ rowRefs row, r ∈ avail) ∧ RefsAvail (avail ++ [k]) rest))
 
 instance (avail : List Str) (d : List (Str × Row)) : Decidable (RefsAvail avail d) := decRefsAvail d avail
+
+/-! ## deciding the table invariants (for generated tables of shipped modules) -/
+
+def goodHead (look : Lookup) (k : Str) (leaf : Bool) : Bool :=
+  match look k with
+  | some (k', inh) => k' == k && (!leaf || inh.isEmpty)
+  | none => false
+
+theorem goodHead_iff (look : Lookup) (k : Str) (cs : List Attr) :
+    goodHead look k cs.isEmpty = true ↔ ∃ inh, look k = some (k, inh) ∧ (cs = [] → inh = []) := by
+  unfold goodHead
+  cases hl : look k with
+  | none => simp
+  | some v =>
+    obtain ⟨k', inh⟩ := v
+    simp only [Bool.and_eq_true, beq_iff_eq, Bool.or_eq_true, Bool.not_eq_true', List.isEmpty_iff, Option.some.injEq, Prod.mk.injEq]
+    constructor
+    · rintro ⟨h1, h2⟩
+      refine ⟨inh, ⟨h1, rfl⟩, ?_⟩
+      intro hc
+      rcases h2 with h | h
+      · rw [hc] at h; simp at h
+      · exact h
+    · rintro ⟨inh', ⟨h1, h2⟩, h3⟩
+      subst h2
+      refine ⟨h1, ?_⟩
+      by_cases hc : cs = []
+      · exact Or.inr (h3 hc)
+      · left
+        cases cs with
+        | nil => exact absurd rfl hc
+        | cons _ _ => rfl
+
+mutual
+def decGoodN (look : Lookup) : (a : Attr) → Decidable (GoodN look a)
+  | .mk k cs =>
+    have := decGoodL look cs
+    decidable_of_iff (goodHead look k cs.isEmpty = true ∧ GoodL look cs) (by
+      rw [goodHead_iff]
+      exact Iff.rfl)
+def decGoodL (look : Lookup) : (cs : List Attr) → Decidable (GoodL look cs)
+  | [] => isTrue trivial
+  | a :: rest =>
+    have := decGoodN look a
+    have := decGoodL look rest
+    inferInstanceAs (Decidable (GoodN look a ∧ GoodL look rest))
+end
+
+instance (look : Lookup) (cs : List Attr) : Decidable (GoodL look cs) := decGoodL look cs
+
+/-- the `ref` clause of `SymOK`, as a check -/
+def refOK (W : World) (t : Table) (s : Sym) : Bool :=
+  W.known s.node && W.known s.decl && W.isDecl s.decl &&
+    (match dictGet? t.items (s.typesKey W) with
+      | some o => o.types == s.types && (!s.attrs.isEmpty || o.attrs.isEmpty)
+      | none => false)
+
+theorem refOK_sound (W : World) (t : Table) (s : Sym) (h : refOK W t s = true) :
+    W.known s.node = true ∧ W.known s.decl = true ∧ W.isDecl s.decl = true ∧
+      ∃ o, dictGet? t.items (s.typesKey W) = some o ∧ o.types = s.types ∧ (s.attrs = [] → o.attrs = []) := by
+  unfold refOK at h
+  simp only [Bool.and_eq_true] at h
+  obtain ⟨⟨⟨h1, h2⟩, h3⟩, h4⟩ := h
+  refine ⟨h1, h2, h3, ?_⟩
+  cases hg : dictGet? t.items (s.typesKey W) with
+  | none => rw [hg] at h4; cases h4
+  | some o =>
+    rw [hg] at h4
+    simp only [Bool.and_eq_true, beq_iff_eq, Bool.or_eq_true, Bool.not_eq_true', List.isEmpty_iff] at h4
+    refine ⟨o, rfl, h4.1, ?_⟩
+    intro ha
+    rcases h4.2 with h | h
+    · rw [ha] at h; simp at h
+    · exact h
+
+/-- `SymOK` as a check -/
+def symOKb (W : World) (t : Table) (s : Sym) : Bool :=
+  (if s.isClassSymbol W then s.node == s.types && W.known s.types else refOK W t s) && decide (GoodL (t.lookup W) s.attrs)
+
+theorem symOKb_sound (W : World) (t : Table) (s : Sym) (h : symOKb W t s = true) : SymOK W t s := by
+  unfold symOKb at h
+  simp only [Bool.and_eq_true, decide_eq_true_eq] at h
+  obtain ⟨h1, h2⟩ := h
+  refine ⟨?_, ?_, h2⟩
+  · intro hc
+    simp only [hc, if_true, Bool.and_eq_true, beq_iff_eq] at h1
+    exact h1
+  · intro hc
+    simp only [hc, Bool.false_eq_true, if_false] at h1
+    exact refOK_sound W t s h1
+
+/-- all entries of module `M` pass the check ⇒ the hypothesis of `C14.rt` -/
+theorem symOK_of_check (W : World) (t : Table) (M : Str)
+    (h : (t.items.all (fun ks => modOf ks.1 != M || symOKb W t ks.2)) = true) :
+    ∀ K s, dictGet? t.items K = some s → modOf K = M → SymOK W t s := by
+  intro K s hs hm
+  have hmem := mem_of_dictGet _ _ _ hs
+  have := List.all_eq_true.mp h (K, s) hmem
+  simp only [hm, bne_self_eq_false, Bool.false_or] at this
+  exact symOKb_sound W t s this
+
+
+theorem loaded_iff (W : World) (t : Table) (M : Str) (rank : Str → Nat) :
+    Loaded W t M rank ↔
+      ((t.items.map Prod.fst).Nodup ∧
+       (∀ ks ∈ t.items, ∀ r ∈ rowRefs (serialize W ks.2), r ∈ t.items.map Prod.fst) ∧
+       (∀ ks ∈ t.items, modOf ks.1 = M → ∀ c ∈ keysN (ks.2.asAttr W), modOf c = M → ClsEntry W t c) ∧
+       (∀ ks ∈ t.items, rank ks.1 ≤ t.items.length) ∧
+       (∀ ks ∈ t.items, modOf ks.1 = M → ks.2.isClassSymbol W = true →
+          ∀ c' ∈ keysL ks.2.attrs, modOf c' = M → rank c' < rank ks.1) ∧
+       (∀ ks ∈ t.items, modOf ks.1 = M → ks.2.isClassSymbol W = false →
+          ks.2.via ∈ baseKeys t M ∨ ks.2.via ∈ keysN (ks.2.asAttr W))) :=
+  ⟨fun h => ⟨h.nodup, h.closed, h.clsKeys, h.rankBound, h.acyclic, h.viaOK⟩,
+   fun h => ⟨h.1, h.2.1, h.2.2.1, h.2.2.2.1, h.2.2.2.2.1, h.2.2.2.2.2⟩⟩
+
+instance (W : World) (t : Table) (M : Str) (rank : Str → Nat) : Decidable (Loaded W t M rank) :=
+  have d1 : Decidable ((t.items.map Prod.fst).Nodup) := inferInstance
+  have d2 : Decidable (∀ ks ∈ t.items, ∀ r ∈ rowRefs (serialize W ks.2), r ∈ t.items.map Prod.fst) := inferInstance
+  have d3 : Decidable (∀ ks ∈ t.items, modOf ks.1 = M → ∀ c ∈ keysN (ks.2.asAttr W), modOf c = M → ClsEntry W t c) := inferInstance
+  have d4 : Decidable (∀ ks ∈ t.items, rank ks.1 ≤ t.items.length) := inferInstance
+  have d5 : Decidable (∀ ks ∈ t.items, modOf ks.1 = M → ks.2.isClassSymbol W = true →
+      ∀ c' ∈ keysL ks.2.attrs, modOf c' = M → rank c' < rank ks.1) := inferInstance
+  have d6 : Decidable (∀ ks ∈ t.items, modOf ks.1 = M → ks.2.isClassSymbol W = false →
+      ks.2.via ∈ baseKeys t M ∨ ks.2.via ∈ keysN (ks.2.asAttr W)) := inferInstance
+  decidable_of_iff _ (loaded_iff W t M rank).symm
 
 end Tranp.SymbolJson
